@@ -592,7 +592,11 @@ func (f *testFilter) PreRequest(req *http.Request) (context.Context, error) {
 	f.log.mu.Unlock()
 	switch f.kind {
 	case "ctx":
-		return context.WithValue(req.Context(), filterKey(f.id), true), nil
+		id := req.Header.Get("X-Verif-Req")
+		if id == "" {
+			id = "-"
+		}
+		return context.WithValue(req.Context(), filterKey(f.id), id), nil
 	case "fail":
 		return nil, &common.ErrorResponse{Status: restli.Int32Pointer(403), Message: restli.StringPointer("filter says no")}
 	}
@@ -602,10 +606,30 @@ func (f *testFilter) PreRequest(req *http.Request) (context.Context, error) {
 func (f *testFilter) PostRequest(ctx context.Context, h http.Header) error {
 	ev := FilterEvent{Filter: f.id, Phase: "post"}
 	for i := 0; i < 8; i++ {
-		if ctx.Value(filterKey(i)) != nil {
+		if v := ctx.Value(filterKey(i)); v != nil {
 			ev.SawCtx = append(ev.SawCtx, i)
+			// context-adding filters store the request id: it attributes this event to its request
+			if id, ok := v.(string); ok && id != "" {
+				ev.ReqID = id
+			}
 		}
 	}
+	// what the request context says about the request after resource code has returned
+	func() {
+		defer func() {
+			if r := recover(); r != nil {
+				ev.Method = fmt.Sprint("PANIC:", r)
+			}
+		}()
+		ev.Method = restli.GetMethodFromContext(ctx).String()
+		for _, r := range restli.GetEntitySegmentsFromContext(ctx) {
+			s, err := r.ReadString()
+			if err != nil {
+				s = "ERR:" + err.Error()
+			}
+			ev.Keys = append(ev.Keys, s)
+		}
+	}()
 	f.log.mu.Lock()
 	f.log.events = append(f.log.events, ev)
 	f.log.mu.Unlock()
